@@ -11,10 +11,10 @@ CONSTANTS
   BurnVeto = TRUE
   BurnPrevote = TRUE
   BurnQuorum = FALSE
-  ParamKeys = {}
-  MaxParamChanges = 0
-  Seeded = FALSE
-  Defects = {"bond_denom_only"}
+  ParamKeys = {"tax"}
+  MaxParamChanges = 1
+  Seeded = TRUE
+  Defects = {"gate_community_tax"}
 INVARIANT MInv_P
 INVARIANT MInv_Model
 PROPERTY MStep_P
